@@ -24,6 +24,8 @@ OT = "QtLogger::OwnThreadHandler"
 
 def run(ck):
     F = ck.facts
+    from rules.oth import resolve_roles
+    ck.notes.append("OwnThreadHandler fields by role: %s" % resolve_roles(F))
     ck.rule("C03-O1", "LogMessage copy constructor: every data member is initialised from the same-named member of the source; file/function/category are copied into owned byte arrays and the new context points into them")
     ck.rule("C03-O2", "the event stores a LogMessage by value, copy-initialised from the message passed to process(); process posts new LogEvent(its argument)")
     ck.rule("C03-O3", "with a worker, process() runs no handler: it only counts the message as pending and posts the event")
@@ -189,7 +191,7 @@ def handoff(ck, proc):
     recv = skip_copies(a[0]) if a else None
     okr = is_this_field(recv, W)
     ck.ob("C03-O4", sitestr(proc, p), okr, "%s: the event goes to the worker object" % tag if okr else "%s: the event is posted to %s" % (tag, describe(recv)), key="OwnThreadHandler::process|receiver")
-    ev = skip_copies(a[1]) if len(a) > 1 else None
+    ev = skip_copies(deref_local(proc, a[1])) if len(a) > 1 else None
     okev = isinstance(ev, dict) and ev.get("k") == "new" and isinstance(ev.get("init"), dict) and skip_copies(ev["init"]).get("k") == "construct" and arg_is_param(skip_copies(ev["init"]), 0, proc, 0) \
         and "LogEvent" in (ev.get("alloc") or "")
     ck.ob("C03-O2", sitestr(proc, p), okev, "%s: posts new LogEvent(lmsg) built from the message being logged" % tag if okev else "%s: posts %s" % (tag, describe(ev)), key="OwnThreadHandler::process|event")
@@ -253,8 +255,8 @@ def handoff(ck, proc):
         keep = gc.projector(ev_atom(True))
         ok = gc.must_pass({rs_}, keep=keep) and not gc.in_cycle(rs_) and rs_ not in gc.live(gc.projector(ev_atom(False)))
         ck.ob("C03-O4", sitestr(ce, r), ok, "%s: a LogEvent runs the wrapped handler exactly once; other events do not" % tag if ok else "%s: the handler run in customEvent is conditional/repeated" % tag, key="Worker::customEvent|run")
-        m = skip_copies(r["args"][0]) if r.get("args") else None
-        okm = isinstance(m, dict) and m.get("k") == "member" and m.get("name", "").endswith("LogEvent::lmsg") and casts and is_ref_to(unwrap_ptr(m.get("base")), casts[0]["decl"])
+        m = skip_copies(deref_local(ce, r["args"][0])) if r.get("args") else None
+        okm = isinstance(m, dict) and m.get("k") == "member" and is_field(m, OT + "::LogEvent::lmsg") and casts and is_ref_to(unwrap_ptr(m.get("base")), casts[0]["decl"])
         ck.ob("C03-O4", sitestr(ce, r), bool(okm), "%s: the handler gets the event's own message" % tag if okm else "%s: the handler gets %s" % (tag, describe(m)), key="Worker::customEvent|message")
         tgt = F.fns.get(r.get("fn"))
         okt = tgt is not None and not strip_tmpl(tgt.name).startswith(OT + "::")
@@ -296,6 +298,23 @@ def handoff(ck, proc):
     if mtt:
         tgt = skip_copies(mtt[0]["args"][0])
         okt = any(is_this_field(x, OT + "::m_thread") for x in walk(tgt))
+        t0 = skip_copies(deref_local(mv, tgt))
+        if not okt and isinstance(tgt, dict) and tgt.get("k") == "ref" and tgt.get("dk") == "local":
+            # a local that is also what m_thread is set to (`auto thread = new QThread; m_thread = thread;`), through helper parameters
+            chain = [skip_copies(tgt)]
+            for _ in range(4):
+                _, var_ = local_var(mv, chain[-1].get("decl"))
+                nxt = skip_copies(var_.get("init")) if var_ and isinstance(var_.get("init"), dict) else None
+                if isinstance(nxt, dict) and nxt.get("k") == "ref" and nxt.get("dk") == "local" and nxt.get("decl") != chain[-1].get("decl"):
+                    chain.append(nxt)
+                else:
+                    break
+            for src in chain:
+                okt = okt or any(is_this_field(a_.get("lhs") if a_.get("k") == "binop" else (a_.get("args") or [None])[0], OT + "::m_thread") and
+                          is_ref_to(a_.get("rhs") if a_.get("k") == "binop" else (a_.get("args") or [None, None])[1], src["decl"])
+                          for a_ in mv.find(lambda n: (n.get("k") == "binop" and n.get("op") == "=") or (n.get("k") == "call" and n.get("op") == "=")))
+        elif not okt and isinstance(t0, dict):
+            okt = any(is_this_field(x, OT + "::m_thread") for x in walk(t0))
         ck.ob("C03-O6", sitestr(mv, mtt[0]), okt, "%s: the worker lives on the logger's own thread" % tag if okt else "%s: the worker is moved to %s" % (tag, describe(tgt)), key="moveToOwnThread|thread")
     wc = [f for f in F.fns.values() if f.cls and f.cls.startswith(cls + "::Worker") and f.d.get("kind") == "ctor" and not f.d.get("copyctor") and not f.d.get("movector")]
     if wc:
